@@ -318,6 +318,64 @@ def _rebuild_prefix(ctx, f):
                 % text(iff.test), text_="swizzle prefix reuse")
 
 
+def _swap_guard(ctx):
+    """Tensor.swapRanks skips the fiber-level swap only when there is nothing
+    to swap: the guard must be existential over the rank's fibers (`not all
+    empty` / `any not empty`); a universal guard (`all not empty`) leaves the
+    root unswapped as soon as one fiber of the rank is empty."""
+    f = ctx.method("Tensor", "swapRanks")
+    calls = [c for c in f.own_nodes() if isinstance(c, ast.Call)
+             and text(c.func).endswith("_modifyRoot")
+             and any("swapRanks" in text(a) for a in c.args)]
+    ctx.require(calls, "C09.R4: Tensor.swapRanks no longer swaps through _modifyRoot")
+    from ..cfg import guards
+    for c in calls:
+        gs = [(t, pol) for t, pol in guards(enclosing_stmt(c), asserts=False)]
+        verdicts = []
+        for t, pol in gs:
+            q = t
+            neg = not pol
+            while isinstance(q, ast.UnaryOp) and isinstance(q.op, ast.Not):
+                q, neg = q.operand, not neg
+            if not (isinstance(q, ast.Call) and text(q.func) in ("all", "any")
+                    and q.args and isinstance(q.args[0], (ast.GeneratorExp, ast.ListComp))):
+                continue
+            e = q.args[0].elt
+            eneg = False
+            while isinstance(e, ast.UnaryOp) and isinstance(e.op, ast.Not):
+                e, eneg = e.operand, not eneg
+            if not (isinstance(e, ast.Call) and isinstance(e.func, ast.Attribute)
+                    and e.func.attr == "isEmpty"):
+                continue
+            # meaning of the guard as a statement about "empty"
+            if text(q.func) == "all":
+                # all(empty) / all(not empty), possibly negated
+                meaning = ("not all empty" if (neg and not eneg) else
+                           "all empty" if (not neg and not eneg) else
+                           "all non-empty" if (not neg and eneg) else
+                           "some empty")
+            else:
+                meaning = ("some non-empty" if (not neg and eneg) else
+                           "some empty" if (not neg and not eneg) else
+                           "all empty" if (neg and eneg) else "all non-empty")
+            verdicts.append((meaning, t))
+        if not gs:
+            ctx.ok("C09.R4", f, c, "fiber-level swap is unconditional",
+                   text_="swapRanks guard")
+        elif verdicts and all(m in ("not all empty", "some non-empty") for m, _ in verdicts) \
+                and len(verdicts) == len(gs):
+            ctx.ok("C09.R4", f, c, "fiber-level swap skipped only when every "
+                   "fiber of the rank is empty", text_="swapRanks guard")
+        else:
+            ctx.bad("C09.R4", f, c, "Tensor.swapRanks performs the fiber-level "
+                    "swap only when `%s` (%s): with one empty fiber in the rank "
+                    "next to non-empty ones the ids and shape are exchanged but "
+                    "no point moves" % (
+                        " and ".join(text(t) for t, _ in gs),
+                        ", ".join(m for m, _ in verdicts) or "not an emptiness quantifier"),
+                    text_="swapRanks guard")
+
+
 def _merge_alignment(ctx):
     """_mergeRanksHelper pairs its own coordinates with a list of (already
     merged) children positionally -- `zip(self.coords, children)`.  The
@@ -470,6 +528,7 @@ def r4(ctx):
         ctx.ok("C09.R4", f, cp[0], "works on a deep copy")
     _rebuild_prefix(ctx, f)
     _merge_alignment(ctx)
+    _swap_guard(ctx)
     # Fiber.swapRanks
     f = ctx.method("Fiber", "swapRanks")
     fl = so = un = False
